@@ -483,6 +483,7 @@ class Extractor {
         O["extent"] = llvm::toString(CAT->getSize(), 10, false);
     } else if (const auto *IL = dyn_cast<InitListExpr>(S)) {
       O["k"] = "initlist";
+      O["scalar"] = IL->getType()->isScalarType();
       json::Array A;
       for (const Expr *I : IL->inits()) A.push_back(child(I));
       O["items"] = std::move(A);
